@@ -36,10 +36,28 @@ IntervalVerdict(s, e) ==
   ELSE "either"                                              \* empty range with an over-large bound
 NRowsClass(s, e) == IF IsNumber(s) /\ IsNumber(e) /\ Rank(e) > Rank(s) THEN "some" ELSE "none"
 
-FileClasses == {"none", "absent", "existing", "dir", "symlink-to-file", "dangling-symlink", "parent-missing", "empty-string"}
-FileVerdict(f) == CASE f \in {"none", "absent"} -> "accept"
+\* the path given to --file, as a state of the file system (the working directory holds an existing file, a directory
+\* `sub` with another existing file, and links):
+\*   symlink-to-file        link in the working directory, relative target, to the existing file next to it
+\*   symlink-rel-in-subdir  sub/link -> "keep.json": relative target resolved from the LINK's directory, not from the cwd
+\*   symlink-up             sub/link -> "../exist.json"
+\*   symlink-abs-to-file    link with an absolute target
+\*   symlink-to-dir         link to a directory
+\*   existing-dotdot        the existing file spelled sub/../exist.json
+\*   absent-in-subdir       a new name inside the existing directory
+FileClasses == {"none", "absent", "existing", "dir", "symlink-to-file", "dangling-symlink", "parent-missing", "empty-string",
+                "symlink-rel-in-subdir", "symlink-up", "symlink-abs-to-file", "symlink-to-dir", "existing-dotdot", "absent-in-subdir"}
+ExistingClasses == {"existing", "dir", "symlink-to-file", "symlink-rel-in-subdir", "symlink-up", "symlink-abs-to-file",
+                    "symlink-to-dir", "existing-dotdot"}
+CreatableClasses == {"absent", "dangling-symlink", "absent-in-subdir"}
+FileVerdict(f) == CASE f \in {"none", "absent", "absent-in-subdir"} -> "accept"
                     [] f = "dangling-symlink" -> "either"    \* nothing exists at the path; creating the target is not overwriting
                     [] OTHER -> "reject"
+
+\* --password: the passphrase as typed is part of the source secret AND of the master block that is echoed
+PwClasses == {"none", "ascii", "nfkd-sensitive", "blank-padded", "empty"}
+TakesPassword(c) == c \in {"new", "from-mnemonic", "from-entropy-hex"}
+PwVerdict(c, w) == IF w = "none" \/ TakesPassword(c) THEN "accept" ELSE "reject"     \* unknown option of that sub-command
 
 \* command argument classes and what they lead to: "ok", "reject" (parser), "raise" (wallet
 \* construction or generation fails), "either"
@@ -75,8 +93,10 @@ Init == /\ pc = "Start" /\ out = NoOut
                /\ \/ (x = "default" /\ s = "0" /\ e = "3")
                   \/ (f = "none" /\ ~t /\ ~p /\ s = "0" /\ e = "3")
                   \/ (f = "none" /\ ~t /\ ~p /\ x = "default")
-               /\ \E h \in BOOLEAN : argv = [file |-> f, testnet |-> t, paranoia |-> p, account |-> x, start |-> s, end |-> e,
-                                            cmd |-> c, arg |-> a, help |-> h /\ x = "default" /\ s = "0" /\ e = "3"]
+               /\ \E h \in BOOLEAN, w \in PwClasses :
+                    /\ (w # "none" => x = "default" /\ s = "0" /\ e = "3" /\ f \in {"none", "absent"} /\ ~h)
+                    /\ argv = [file |-> f, testnet |-> t, paranoia |-> p, account |-> x, start |-> s, end |-> e,
+                               cmd |-> c, arg |-> a, help |-> h /\ x = "default" /\ s = "0" /\ e = "3", pw |-> w]
         /\ fs = argv.file
 
 Accepts(v) == v \in {"accept", "ok"}
@@ -93,12 +113,13 @@ Help ==
 
 ParseArgs ==
   /\ pc = "Start" /\ ~argv.help
-  /\ \E okFile \in BOOLEAN, okAcct \in BOOLEAN, okIv \in BOOLEAN, okArg \in BOOLEAN :
+  /\ \E okFile \in BOOLEAN, okAcct \in BOOLEAN, okIv \in BOOLEAN, okArg \in BOOLEAN, okPw \in BOOLEAN :
+       /\ okPw = (PwVerdict(argv.cmd, argv.pw) = "accept")
        /\ (okFile => FileVerdict(argv.file) \in {"accept", "either"}) /\ (~okFile => FileVerdict(argv.file) \in {"reject", "either"})
        /\ (okAcct => AccountVerdict(argv.account) \in {"accept", "either"}) /\ (~okAcct => AccountVerdict(argv.account) \in {"reject", "either"})
        /\ (okIv => IntervalVerdict(argv.start, argv.end) \in {"accept", "either"}) /\ (~okIv => IntervalVerdict(argv.start, argv.end) \in {"reject", "either"})
        /\ (okArg => ArgVerdict(argv.cmd, argv.arg) \in {"ok", "either", "raise"}) /\ (~okArg => ArgVerdict(argv.cmd, argv.arg) \in {"reject", "either"})
-       /\ IF okFile /\ okAcct /\ okIv /\ okArg
+       /\ IF okFile /\ okAcct /\ okIv /\ okArg /\ okPw
           THEN pc' = "Parsed" /\ out' = out
           ELSE pc' = "Done" /\ out' = [out EXCEPT !.exit = 2]          \* usage error: nothing on stdout, nothing created
   /\ UNCHANGED <<argv, fs>>
@@ -146,13 +167,17 @@ SuccessEqualsApi(a, o) ==
      /\ (a.file # "none" => o.stdout = "empty" /\ o.created)
      /\ o.net = NetOf(a.cmd, a.arg, a.testnet)
 
-NeverOverwrite(a, o) == ~o.overwrote /\ (a.file \in {"existing", "dir", "symlink-to-file"} => ~o.created)
+NeverOverwrite(a, o) == ~o.overwrote /\ (a.file \in ExistingClasses => ~o.created)
 
 Bip44Shaped(a, o) == o.exit = 0 => ~HasHardenedRow(a.start, a.end)
 
+\* an option the sub-command does not have is a usage error, never silently dropped
+PasswordHonoured(a, o) == o.exit = 0 /\ ~a.help => PwVerdict(a.cmd, a.pw) = "accept"
+
 InvFailureIsSilent == Done => FailureIsSilent(argv, out, argv.file, fs)
 InvSuccessEqualsApi == Done => SuccessEqualsApi(argv, out)
-InvNeverOverwrite == NeverOverwrite(argv, out) /\ (fs # argv.file => fs = "created" /\ argv.file \in {"absent", "dangling-symlink"})
+InvNeverOverwrite == NeverOverwrite(argv, out) /\ (fs # argv.file => fs = "created" /\ argv.file \in CreatableClasses)
 InvBip44Shaped == Done => Bip44Shaped(argv, out)
+InvPasswordHonoured == Done => PasswordHonoured(argv, out)
 ExitIsSet == Done => out.exit \in {0, 1, 2}
 =============================================================================
